@@ -27,8 +27,13 @@ HANDLERS = [
 ]
 
 
+_CACHEABLE_LOCALS = set()
+
+
 def _cacheable_atom(at):
-    return at.mentions(lambda x: isinstance(x, ast.Attribute) and x.attr == 'cacheable')
+    """a test on <o>.cacheable, or on a local that was bound to <o>.cacheable"""
+    return at.mentions(lambda x: (isinstance(x, ast.Attribute) and x.attr == 'cacheable') or
+                       (isinstance(x, ast.Name) and x.id in _CACHEABLE_LOCALS))
 
 
 @rule('C20.a', floor=12)
@@ -36,6 +41,10 @@ def c20a(ctx):
     for qn, obj in HANDLERS:
         fn = ctx.fn(qn)
         g = fn.cfg
+        fdefs = Defs(fn.node)
+        _CACHEABLE_LOCALS.clear()
+        _CACHEABLE_LOCALS.update(k for k, ds in fdefs.defs.items() if ds and all(
+            sel is None and isinstance(v, ast.Attribute) and v.attr == 'cacheable' for v, sel in ds))
         ch = g.find(lambda x: is_call(x, 'resp.cache_headers', 'cache_headers'))
         nocache = [(n, x) for n, x in ch if const_value(keyword(x, 'no_cache', 3)) is True]
         valid = [(n, x) for n, x in ch if keyword(x, 'etag_data', 1) is not None]
@@ -187,7 +196,7 @@ def c20c(ctx):
     ok = len(et) == 1 and depends(et[0].value, lambda x: is_call(x, 'hexdigest'), defs)
     if ok:
         # digest source iterates over all of etag_data
-        src = [v for v, sel in defs.of('hash_src')] or [et[0].value]
+        src = [Canon(fn).expr(et[0].value)]          # closed form of the digest expression
         ok = all(contains(v, lambda x: isinstance(x, (ast.GeneratorExp, ast.ListComp)) and unparse(x.generators[0].iter) == 'etag_data' and not x.generators[0].ifs)
                  or contains(v, lambda x: is_call(x, 'map') and len(x.args) == 2 and unparse(x.args[1]) == 'etag_data') for v in src)
     ctx.check(ok, 'Response.cache_headers:etag-over-all-data', 'the ETag is a digest over every element of etag_data', fn,
